@@ -107,6 +107,25 @@ Proof.
   - apply list_set_nth_other. lia.
 Qed.
 
+(* mapi with a function that fixes every element of the list *)
+Lemma mapi_from_id : forall (A : Type) (f : nat -> A -> A) (l : list A) k d,
+  (forall i, i < length l -> f (k + i) (nth i l d) = nth i l d) ->
+  mapi_from k f l = l.
+Proof.
+  intros A f. induction l as [|h t IHt]; intros k d Hfix.
+  - reflexivity.
+  - cbn [mapi_from]. f_equal.
+    + specialize (Hfix 0). cbn [nth length] in Hfix. rewrite Nat.add_0_r in Hfix.
+      apply Hfix. lia.
+    + apply (IHt (S k) d). intros i Hi.
+      specialize (Hfix (S i)). cbn [nth length] in Hfix.
+      replace (S k + i) with (k + S i) by lia. apply Hfix. lia.
+Qed.
+
+Lemma mapi_id : forall (A : Type) (f : nat -> A -> A) (l : list A) d,
+  (forall i, i < length l -> f i (nth i l d) = nth i l d) -> mapi f l = l.
+Proof. intros A f l d Hfix. unfold mapi. apply (@mapi_from_id A f l 0 d). exact Hfix. Qed.
+
 Lemma index_list_from_In : forall (A : Type) (l : list A) k i x d,
   In (i, x) (index_list_from k l) ->
   k <= i /\ i - k < length l /\ x = nth (i - k) l d.
@@ -869,6 +888,59 @@ Proof.
     apply (key_le_newest i HI).
 Qed.
 
+(* no slot of the ring, live or unused, is ordered after the newest store: live slots
+   have a strictly smaller key ([newest_not_lt]); unused slots are [store_default],
+   whose st_mo is the zero clock *)
+Lemma newest_not_lt_any : forall me s caus j,
+  Inv me s caus -> j <> newest s ->
+  vv_lt (st_mo (get_store s (newest s))) (st_mo (get_store s j)) = false.
+Proof.
+  intros me s caus j HI Hne.
+  destruct (Nat.lt_ge_cases j (at_cnt s)) as [Hlt|Hge].
+  - destruct (Nat.lt_ge_cases j MAX_ATOMIC_HISTORY) as [H7|H7].
+    + apply (newest_not_lt HI (conj H7 Hlt) Hne).
+    + unfold get_store at 2. rewrite nth_overflow by (rewrite (inv_len HI); exact H7).
+      destruct (vv_lt (st_mo (get_store s (newest s))) (st_mo store_default)) eqn:Hvl; [|reflexivity].
+      exfalso. rewrite vv_lt_spec in Hvl. destruct Hvl as [_ [k Hk]].
+      change (st_mo store_default) with vv_new in Hk. rewrite vv_new_get in Hk. lia.
+  - rewrite (inv_dead HI Hge).
+    destruct (vv_lt (st_mo (get_store s (newest s))) (st_mo store_default)) eqn:Hvl; [|reflexivity].
+    exfalso. rewrite vv_lt_spec in Hvl. destruct Hvl as [_ [k Hk]].
+    change (st_mo store_default) with vv_new in Hk. rewrite vv_new_get in Hk. lia.
+Qed.
+
+(* a single-thread load reads the newest store, so the propagation step of
+   apply_load_coherence (stores ordered after the loaded one follow its new st_mo)
+   finds nothing to move: the ring after apply_load_coherence is the ring with the
+   newest slot's st_mo replaced by [alc_mo] *)
+Lemma alc_stores_newest : forall me s caus c',
+  Inv me s caus ->
+  at_stores (apply_load_coherence s c' (newest s)) =
+  list_upd (at_stores s) (newest s) (fun x => st_set_mo x (alc_mo s c' (newest s))).
+Proof.
+  intros me s caus c' HI.
+  assert (Hn : live s (newest s)) by (apply live_newest; apply (inv_cnt HI)).
+  assert (Hlen : newest s < length (at_stores s)).
+  { rewrite (inv_len HI). destruct Hn as [Hn _]. exact Hn. }
+  set (M := alc_mo s c' (newest s)).
+  set (before := st_mo (get_store s (newest s))).
+  set (st1 := list_upd (at_stores s) (newest s) (fun x => st_set_mo x M)).
+  set (F := fun (i : nat) (x : astore) =>
+              if negb (Nat.eqb (newest s) i) && vv_lt before (st_mo x)
+              then st_set_mo x (vv_join (st_mo x) M) else x).
+  assert (Hst : at_stores (apply_load_coherence s c' (newest s)) =
+                if vv_eqb M before then st1 else mapi F st1) by reflexivity.
+  rewrite Hst. destruct (vv_eqb M before); [reflexivity|].
+  apply (@mapi_id astore F st1 store_default). intros i Hi.
+  unfold F. destruct (Nat.eqb_spec (newest s) i) as [Heq|Hne]; [reflexivity|].
+  cbn [negb andb].
+  assert (Hx : nth i st1 store_default = get_store s i).
+  { unfold st1. rewrite (list_upd_nth (at_stores s) _ i store_default Hlen).
+    destruct (Nat.eqb_spec i (newest s)) as [Heq|_]; [congruence | reflexivity]. }
+  rewrite Hx. unfold before.
+  rewrite (@newest_not_lt_any me s caus i HI) by congruence. reflexivity.
+Qed.
+
 (* [s'] is [s] with the st_mo of the newest slot enlarged, its me-component kept *)
 Record bumped (me : nat) (s s' : atomic_state) : Prop := mkBumped {
   bu_cnt : at_cnt s' = at_cnt s;
@@ -895,7 +967,8 @@ Proof.
   assert (Hlen2 : newest s < length st2).
   { unfold st2. rewrite list_upd_length. exact Hlen. }
   set (touch := fun x => st_set_seen x (seen_touch (st_seen x) me (vv_get c' me))).
-  assert (Hst : at_stores (loadpart s me c' (newest s)) = list_upd st2 (newest s) touch) by reflexivity.
+  assert (Hst : at_stores (loadpart s me c' (newest s)) = list_upd st2 (newest s) touch).
+  { unfold st2, M. rewrite <- (alc_stores_newest c' HI). reflexivity. }
   assert (Hget : forall i, get_store (loadpart s me c' (newest s)) i =
                    if Nat.eqb i (newest s)
                    then touch (st_set_mo (get_store s (newest s)) M)
